@@ -17,7 +17,7 @@ var c19Queries = []string{
 	"SELECT a AS v FROM t WHERE a > ? UNION ALL SELECT vfault(a) AS v FROM t",
 	"SELECT RAISE_WHEN(a > ?, 'boom'), a FROM t",
 	"SELECT a + s AS v FROM t WHERE a > ?",
-	"SELECT a FROM t WHERE s > ? AND s",
+	"SELECT a FROM t WHERE a > ? AND s",
 	"SELECT a FROM t WHERE a > ? ORDER BY vfault(a)",
 	"SELECT a, vfault(a) AS k FROM t WHERE a > ? GROUP BY vfault(a)",
 }
